@@ -205,3 +205,49 @@ def some(x):
 
 def none():
     return ('variant', 'std::option::Option', 0, (), 'None')
+
+
+def subst_terms(t, mapping, _memo=None):
+    """structural replacement: every sub-term that is a key of `mapping` becomes its value (outermost match first)"""
+    if t is None:
+        return None
+    if _memo is None:
+        _memo = {}
+    if t in mapping:
+        return mapping[t]
+    if t in _memo:
+        return _memo[t]
+    k = t[0]
+    s_ = lambda x: subst_terms(x, mapping, _memo)
+    if k in ('top', 'param', 'const', 'fn', 'phi', 'ref'):
+        r = t
+    elif k == 'tuple':
+        r = ('tuple', tuple(s_(x) for x in t[1]))
+    elif k == 'variant':
+        r = ('variant', t[1], t[2], tuple(s_(x) for x in t[3]), t[4])
+    elif k == 'field':
+        r = ('field', s_(t[1]), t[2], t[3])
+    elif k == 'index':
+        r = ('index', s_(t[1]), s_(t[2]))
+    elif k == 'upd':
+        r = ('upd', s_(t[1]), t[2], s_(t[3]))
+    elif k == 'bin':
+        r = ('bin', t[1], s_(t[2]), s_(t[3]))
+    elif k == 'un':
+        r = ('un', t[1], s_(t[2]))
+    elif k == 'discr':
+        r = ('discr', s_(t[1]))
+    elif k == 'closure':
+        r = ('closure', t[1], tuple(s_(x) for x in t[2]))
+    elif k == 'call':
+        r = ('call', t[1], tuple(s_(x) for x in t[2]))
+    elif k == 'set':
+        r = mk_set([s_(x) for x in t[1]], 32)
+    elif k == 'mut':
+        r = ('mut', s_(t[1]), s_(t[2]))
+    elif k in ('elem', 'count'):
+        r = (k, s_(t[1]))
+    else:
+        r = t
+    _memo[t] = r
+    return r
